@@ -12,7 +12,7 @@ from ..ch import runner
 
 FUNCTIONS = ["InitialStylePrimitive.lowering", "PPPrimitive lowering proxy", "create_sample_primitive (lowering_exception param)",
              "VmapBatchHandler.create_batch_rule", "Seed.eval_jaxpr_seed (fall-through)", "default jvp rule of initial_style_bind"]
-BOUNDS = {"placements": "sample site under jit, scan, while_loop, fori_loop (static/dynamic bound), cond, switch, lax.map, grad, remat, custom_jvp, custom_vjp, nested jit; depth <= 2 (compositions of two)",
+BOUNDS = {"placements": "sample site under jit, scan, while_loop, fori_loop (static/dynamic bound), cond, switch, lax.map, grad, remat, custom_jvp, custom_vjp, nested jit; depth <= 2 (compositions of two); programs whose only sites are vectorised ones (modular_vmap / Vmap combinator inside jit and scan)",
           "flags": "symbolic enforce_lowering_exception / lowering_warning / presence of the carried exception (CrossHair)",
           "values": "abstract lowering and tracing involve no values: a verdict holds for all inputs"}
 ASSUMPTIONS = ["abstract lowering (jax.jit(f).lower(avals)) stands for compilation; XLA itself is outside the claim"]
